@@ -2,7 +2,7 @@ SPECIFICATION Spec
 CONSTANTS
   EffTokens = {"pa"}
   MaxEff = 1
-  Modes = {"normal", "closeOut", "x:syntaxOther", "x:syntaxSelf", "x:syntaxBare", "x:indent", "x:noname", "x:lowername", "x:group", "x:unicode", "x:memory", "x:notimpl", "x:warn", "x:stopasync", "x:argsnonstr", "x:tuplekey", "x:noSetattr", "x:noGetattr", "x:slots", "x:argsProp", "x:keySub", "x:chained", "x:ctxchained", "x:importRaises", "x:importExit", "x:importFnRaises", "x:fromImport", "baseImport", "x:importCustomInit"}
+  Modes = {"normal", "closeOut", "x:syntaxOther", "x:syntaxSelf", "x:syntaxBare", "x:indent", "x:noname", "x:lowername", "x:group", "x:unicode", "x:memory", "x:notimpl", "x:warn", "x:stopasync", "x:argsnonstr", "x:tuplekey", "x:syntaxStrLine", "x:strExits", "x:noSetattr", "x:noGetattr", "x:slots", "x:argsProp", "x:keySub", "x:chained", "x:ctxchained", "x:importRaises", "x:importExit", "x:importFnRaises", "x:fromImport", "baseImport", "x:importCustomInit"}
   FnModes = {"normal", "x:noSetattr", "x:noGetattr", "closeOut", "x:syntaxOther", "x:noname", "x:chained", "x:group", "x:importRaises", "x:fromImport", "baseImport"}
   MaxFns = 1
   Depth = 2
